@@ -53,6 +53,13 @@ def run_scenario(sc, root, bindir, focus):
         cmds.append(r)
         with open(os.path.join(pdir, 'src'), 'w') as f:
             f.write('v2\n')
+        if rnd.random() < 0.5:
+            # some generated files have vanished (a `make clean` of part of the tree)
+            for t in rnd.sample(pj['targs'], min(2, len(pj['targs']))):
+                try:
+                    os.unlink(os.path.join(pdir, t))
+                except OSError:
+                    pass
     plan = []
     for k in range(sc['ncmd']):
         kind = rnd.random()
@@ -147,6 +154,52 @@ def history_runs(tier, root, bindir, n_per_prog=6):
     return out
 
 
+def storm(i, seed, root, bindir, n=16):
+    """n commands started at the same instant in a project without .redo: they race for creating the state
+    directory, the database file, its journal mode, the tables and the first run ids"""
+    import subprocess
+    rnd = random.Random(seed)
+    d = os.path.join(root, 'storm%03d' % i)
+    shutil.rmtree(d, ignore_errors=True)
+    pdir = os.path.join(d, 'p')
+    os.makedirs(pdir)
+    for k in range(4):
+        with open(os.path.join(pdir, 't%d.do' % k), 'w') as f:
+            f.write('echo t%d\n' % k)
+    trace = os.path.join(d, 'trace.ndjson')
+    open(trace, 'w').close()
+    env = jobdrive.base_env(bindir, trace, {'REDO_LOG': '0'})
+    plan = [rnd.choice([['redo-targets'], ['redo-sources'], ['redo-ood'], ['redo-ifchange', 't%d' % rnd.randrange(4)],
+                        ['redo', 't%d' % rnd.randrange(4)]]) for _ in range(n)]
+    procs = [subprocess.Popen(a, cwd=pdir, env=env, stdin=subprocess.DEVNULL, stdout=subprocess.PIPE, stderr=subprocess.PIPE,
+                              start_new_session=True) for a in plan]
+    cmds, problems = [], []
+    for a, p in zip(plan, procs):
+        try:
+            so, se = p.communicate(timeout=120)
+            to = False
+        except subprocess.TimeoutExpired:
+            p.kill()
+            so, se = p.communicate()
+            to = True
+        r = {'argv': a, 'rc': p.returncode, 'stderr': se.decode('utf-8', 'replace')[-1500:], 'stdout': so.decode('utf-8', 'replace')[-200:],
+             'timed_out': to}
+        cmds.append(r)
+        if r['rc'] != 0 or to:
+            problems.append('%s: exit %s in a storm of %d first commands: %s' % (' '.join(a), r['rc'], n, r['stderr'][-300:].replace('\n', ' | ')))
+    census = None
+    dbp = os.path.join(pdir, '.redo', 'db.sqlite3')
+    if os.path.exists(dbp):
+        rows, edges, integrity = tracecheck.read_census(dbp)
+        census = (rows, edges)
+        if integrity != 'ok':
+            problems.append('pragma integrity_check: %s' % integrity)
+    sc = {'id': 'storm%03d' % i, 'seed': seed, 'n': n, 'j': 0, 'inherit': False}
+    with open(os.path.join(d, 'scenario.json'), 'w') as f:
+        json.dump({'scenario': sc, 'commands': cmds, 'problems': problems}, f, indent=1)
+    return {'sc': sc, 'dir': d, 'trace': trace, 'problems': problems, 'cmds': cmds, 'census': census}
+
+
 def validate(results, root, module, project, invariants):
     """one TLC run over the concatenation of all scenarios' projections; violations are attributed to their scenario"""
     segs = []
@@ -191,13 +244,19 @@ def run_check(pid, tier, focus, verdict):
         results = list(ex.map(lambda sc: run_scenario(sc, root, bindir, focus), scs))
     hist = history_runs(tier, root, bindir)
     results += hist
+    n_storm = 0
+    if focus == 'db':
+        rnd = random.Random(common.seed() + 16)
+        for i in range(12 if tier == 'quick' else 100):
+            results.append(storm(i, rnd.randrange(1 << 30), root, bindir))
+            n_storm += 1
     n_unl = 0
     for r in results:
         try:
             n_unl += sum(1 for ln in open(r['trace']) if '"ev":"ProcStart"' in ln and '"unlocked":"1"' in ln)
         except OSError:
             pass
-    cov = {'history_driven_executions': len(hist), 'redo_unlocked_delegates_observed': n_unl, 'concurrent_scenarios': len(results) - len(hist), 'real_commands': sum(len(r['cmds']) for r in results),
+    cov = {'first_command_storms': n_storm, 'history_driven_executions': len(hist), 'redo_unlocked_delegates_observed': n_unl, 'concurrent_scenarios': len(results) - len(hist) - n_storm, 'real_commands': sum(len(r['cmds']) for r in results),
            'fresh_state_dirs': sum(1 for s in scs if s['fresh']), 'seed': common.seed()}
     other = 0
     for r in results:
